@@ -582,7 +582,7 @@ func init() {
 	register(&Check{
 		ID: "C20", Level: "exploration", MinNontriv: 30,
 		Anchors: []string{"plugins/device-injector/device-injector.go", "plugins/ulimit-adjuster/adjuster.go", "pkg/stub/stub.go"},
-		Rule:    "the two sample plugins are built from /repo/plugins and launched as pre-installed plugins by a real Adaptation; creation requests carry generated pod annotations built from structured values: for devices / mounts / CDI devices any subset of the container-scoped, pod-scoped and bare keys (the most specific present one is effective, incl. present-but-empty values), keys addressed to other containers whose names are prefixes/extensions of this one, YAML and JSON payloads; ulimits at container scope with mixed-case optionally prefixed names and 64-bit boundary values, plus pod-scoped/bare/other-container ulimit keys that must be ignored; 25% carry one ill-formed payload (truncated, wrong types, unknown rlimit, hard < soft incl. 64-bit wrap-around values, one bad entry among good ones); oracle: well-formed => exactly the described devices (mode/uid/gid iff non-zero), CDI names, mounts and rlimits in annotation order and nothing else; ill-formed => request fails without adjustment; distinct = distinct tag sets (effective scope, encoding, emptiness, shadowed keys, ill-formed kind)",
+		Rule:    "the two sample plugins are built from /repo/plugins and launched as pre-installed plugins by a real Adaptation; creation requests carry generated pod annotations built from structured values: for devices / mounts / CDI devices any subset of the container-scoped, pod-scoped and bare keys (the most specific present one is effective, incl. present-but-empty values), keys addressed to other containers whose names are prefixes/extensions of this one, YAML and JSON payloads; ulimits at container scope with mixed-case optionally prefixed names and 64-bit boundary values, plus pod-scoped/bare/other-container ulimit keys that must be ignored; 25% carry one ill-formed payload (truncated, wrong types, unknown rlimit, hard < soft incl. 64-bit wrap-around values, one bad entry among good ones); oracle: well-formed => exactly the described devices (mode/uid/gid iff non-zero), CDI names, mounts and rlimits in annotation order and nothing else; ill-formed => request fails without adjustment; plus the ulimit adjuster alone on a pre-connected socket under a raw runtime with annotations naming one rlimit type twice in different spellings (its own adjustment carries both entries in order); distinct = distinct tag sets (effective scope, encoding, emptiness, shadowed keys, ill-formed kind)",
 		Assumptions: []string{
 			"device paths, mount destinations, rlimit types and CDI names are unique within one annotation (duplicates would be a same-plugin conflict in the adaptation, which no property defines)",
 		},
